@@ -79,6 +79,24 @@ fn state_lattice_for(spec: &Spec) -> Vec<V> {
                     out.push(V::Rv((0..*dim).map(|i| if i % 2 == 0 { a } else { b }).collect()));
                 }
             }
+            // coordinates placed RELATIVE to each finite bound: on it, one and a few ulps either side, a
+            // relative 1e-12 / 1e-6 either side, far beyond; the other coordinates in the middle of their sides
+            if let Spec::Rv { bounds: Some(bs), .. } = spec {
+                let mid: Vec<f64> = bs.iter().map(|(l, u)| if l.is_finite() && u.is_finite() { l + 0.5 * (u - l) } else if l.is_finite() { *l + 1.0 } else if u.is_finite() { *u - 1.0 } else { 0.0 }).collect();
+                for (i, (l, u)) in bs.iter().enumerate() {
+                    for bnd in [*l, *u] {
+                        if !bnd.is_finite() {
+                            continue;
+                        }
+                        let m = bnd.abs().max(f64::MIN_POSITIVE);
+                        for x in [bnd, crate::lattice::next_up(bnd), crate::lattice::next_down(bnd), bnd + 4.0 * f64::EPSILON * m, bnd - 4.0 * f64::EPSILON * m, bnd + 1e-12 * m, bnd - 1e-12 * m, bnd + 1e-6 * m, bnd - 1e-6 * m, bnd + 1e3 * m, bnd - 1e3 * m] {
+                            let mut c = mid.clone();
+                            c[i] = x;
+                            out.push(V::Rv(c));
+                        }
+                    }
+                }
+            }
             out
         }
         Spec::So2 { bounds, .. } => {
